@@ -15,12 +15,27 @@ def _self_attr(n):
     return isinstance(n, ast.Attribute) and isinstance(n.value, ast.Name) and n.value.id == "self"
 
 
-def _shrinks(node, fld):
-    """AST nodes under `node` that shrink self.<fld> in place"""
+def _aliases(fnode, fld):
+    """local names bound to self.<fld> by a plain assignment"""
+    out = set()
+    for n in ast.walk(fnode):
+        if isinstance(n, ast.Assign) and _self_attr(n.value) and n.value.attr == fld:
+            for t in n.targets:
+                if isinstance(t, ast.Name):
+                    out.add(t.id)
+    return out
+
+
+def _mentions(expr, fld, aliases=()):
+    return any((_self_attr(x) and x.attr == fld) or (isinstance(x, ast.Name) and x.id in aliases) for x in ast.walk(expr))
+
+
+def _shrinks(node, fld, aliases=()):
+    """AST nodes under `node` that shrink self.<fld> (or a local alias of it) in place"""
     out = []
     for n in ast.walk(node):
-        if isinstance(n, ast.Call) and isinstance(n.func, ast.Attribute) and n.func.attr in SHRINK and _self_attr(n.func.value) \
-                and n.func.value.attr == fld:
+        if isinstance(n, ast.Call) and isinstance(n.func, ast.Attribute) and n.func.attr in SHRINK and (
+                (_self_attr(n.func.value) and n.func.value.attr == fld) or (isinstance(n.func.value, ast.Name) and n.func.value.id in aliases)):
             out.append(n)
         if isinstance(n, ast.Delete):
             for t in n.targets:
@@ -120,36 +135,43 @@ def iter_mut(ctx, rule="R-ITER-MUT"):
 
 
 def remove_all(ctx, rule="R-REMOVE-ALL"):
-    """remove_timer / unsubscribe remove every matching registration"""
+    """remove_timer / unsubscribe remove every matching registration (path-based; helpers are inlined)"""
     P = ctx.prog
     for name, fld in (("remove_timer", "_timer_events"), ("unsubscribe", "_subscribers")):
         f = P.func(ECU, name)
+        F = field(fld)
         inst = "%s removes every match" % name
-        ok = None
-        for n in ast.walk(f.node):
-            # rebuild by filter
-            if isinstance(n, (ast.Assign,)) and isinstance(n.value, ast.ListComp):
-                tg = n.targets[0]
-                if (_self_attr(tg) and tg.attr == fld) or (isinstance(tg, ast.Subscript) and _self_attr(tg.value) and tg.value.attr == fld):
-                    ok = True
-            if isinstance(n, ast.For):
-                sh = _shrinks(n, fld)
-                if sh:
-                    live = _self_attr(n.iter) and n.iter.attr == fld
-                    ok = (not live) if ok is None else ok
-            if isinstance(n, ast.While) and _shrinks(n, fld):
-                ok = True
-        if ok is None:
-            sh = _shrinks(f.node, fld)
-            if sh:
-                ctx.violated(rule, f, inst, "a single remove() deletes only the first matching registration", sh[0])
+        verdict = None
+        node = f.node
+        for r in runs(ctx, f, unroll=1):
+            rebuilt = [e for _, e in r.effects() if e.kind == "store" and (e.target == F or (e.target[0] == "sub" and e.target[1] == F and e.target[2][0] == "slice"))
+                       and e.value[0] == "comp"]
+            if rebuilt:
+                verdict = True if verdict is None else verdict
+                continue
+            rem = [(i, e) for i, e in r.effects() if e.kind == "call" and e.value[1] in (("attr", F, "remove"), ("attr", F, "pop"))]
+            if not rem:
+                continue
+            i, e = rem[0]
+            node = e.node
+            arg = e.value[2][0] if e.value[2] else None
+            src = arg[1] if arg is not None and arg[0] == "iter" else None
+            if src is None:
+                verdict = False     # a removal that is not driven by an iteration: first match only
+                why = "a single remove() deletes only the first matching registration"
+            elif src == F:
+                verdict = False
+                why = "removal happens while iterating the live list: every second adjacent match survives"
+            elif src[0] in ("call", "sub") and contains(src, F):
+                verdict = True if verdict is None else verdict   # iteration over a copy (list(x), x[:], x.copy())
             else:
-                ctx.unknown(rule, "%s: removal construct not recognised" % f.qual)
-        elif ok:
+                verdict = verdict
+        if verdict is None:
+            ctx.unknown(rule, "%s: removal construct not recognised" % f.qual)
+        elif verdict:
             ctx.holds(rule, inst)
         else:
-            # live iteration with removal: R-ITER-MUT reports it; here it also means not-all
-            ctx.violated(rule, f, inst, "removal happens while iterating the live list: every second adjacent match survives", f.node)
+            ctx.violated(rule, f, inst, why, node)
 
 
 def timer_rules(ctx):
@@ -215,8 +237,9 @@ def timer_rules(ctx):
                     if C is None or N is None:
                         ctx.unknown("R-TIMER-PERIOD", "deadline comparisons not recognised")
                     else:
-                        notdue = N if True else None
-                        # scan[0] true branch = not due (deadline > now)
+                        # this path runs the callback, so the scan test with its polarity on this path is the "due" condition
+                        due = N if scan[0].pol else mk_not(N)
+                        notdue = mk_not(due)
                         ok, cex = G.implies(mk_not(C), notdue)
                         inst = "catch-up loop exit implies 'not due' (no double fire at deadline == now)"
                         if ok:
@@ -232,7 +255,7 @@ def timer_rules(ctx):
                     ctx.violated("R-TIMER-ONESHOT", j, "callback gets its cookie", "callback called with %s" % [pretty(x) for x in e.value[2]], e.node)
     # one-shot removal and guarded remove: AST level
     pm = parents(j.node)
-    rem = _shrinks(j.node, "_timer_events")
+    rem = _shrinks(j.node, "_timer_events", _aliases(j.node, "_timer_events"))
     rebuild = [n for n in ast.walk(j.node) if isinstance(n, ast.Assign) and _self_attr(n.targets[0]) and n.targets[0].attr == "_timer_events"]
     inst = "a callback not returning True is removed in the same pass"
     if not rem and not rebuild:
@@ -240,9 +263,10 @@ def timer_rules(ctx):
     else:
         ctx.holds("R-TIMER-ONESHOT", inst)
     # R-LIVE-CHECK
-    loops = [n for n in ast.walk(j.node) if isinstance(n, ast.For) and any(_self_attr(x) and x.attr == "_timer_events" for x in ast.walk(n.iter))]
+    al_j = _aliases(j.node, "_timer_events")
+    loops = [n for n in ast.walk(j.node) if isinstance(n, ast.For) and _mentions(n.iter, "_timer_events", al_j)]
     for lp in loops:
-        snap = not _self_attr(lp.iter)
+        snap = not (_self_attr(lp.iter) or (isinstance(lp.iter, ast.Name) and lp.iter.id in al_j))
         if snap:
             # membership re-check of the live list before the callback
             inst = "timer dispatch over a snapshot re-checks liveness before calling"
@@ -257,7 +281,7 @@ def timer_rules(ctx):
             else:
                 ctx.violated("R-LIVE-CHECK", j, inst, "a timer removed earlier in the same pass (by another callback) is still called after "
                              "remove_timer has returned", lp)
-        for s in _shrinks(lp, "_timer_events"):
+        for s in _shrinks(lp, "_timer_events", al_j):
             inst = "job-side removal of an expired timer tolerates a concurrent removal"
             guarded = _in_try_catching(s, pm, names=("ValueError", "Exception", "BaseException"))
             cur = s
@@ -324,13 +348,16 @@ def _timer_loop_runs(ctx, j):
     from sa.sym import SymEval
     from .common import contradictory
     loop = None
+    al = _aliases(j.node, "_timer_events")
     for n in ast.walk(j.node):
-        if isinstance(n, ast.For) and any(_self_attr(x) and x.attr == "_timer_events" for x in ast.walk(n.iter)):
+        if isinstance(n, ast.For) and _mentions(n.iter, "_timer_events", al):
             loop = n
             break
     if loop is None:
         raise AnalysisError("anchor vanished: timer dispatch loop in %s" % j.qual)
     ev = SymEval(ctx.prog, j)
+    for a in al:
+        ev.env[a] = field("_timer_events")
     ev.env["now"] = ("p", "now")
     ev.env["next_wakeup"] = ("p", "next_wakeup")
     it = ev.expr(loop.iter)
